@@ -101,7 +101,7 @@ Section Block.
               if (i <=? r) && (r <? i + 32) then striped_row K 32 R s r else nth r m []).
     { intros r. rewrite store_at_nth by assumption.
       destruct (Nat.leb_spec i r) as [Hle|Hgt]; [|reflexivity].
-      destruct (Nat.ltb_spec r (i + 32)) as [Hlt|Hge]; simpl.
+      destruct (Nat.ltb_spec r (i + 32)) as [Hlt|Hge]; cbn [andb].
       - destruct (regs_row ld (r - i) Hld ltac:(lia)) as (reg & Hls & Hreg).
         rewrite Hls. fold regs in Hreg. rewrite Hreg. unfold ld.
         rewrite block_row by (assumption || lia). f_equal. lia.
@@ -125,15 +125,15 @@ Section Block.
       forall r, r < i' -> nth r m' [] = striped_row K 32 R s r.
   Proof.
     induction fuel as [|f IH]; intros i m Hf Hi Hwf Hlen Hinv.
-    - simpl. destruct (Nat.leb_spec (i + 32) R); [lia|]. simpl.
+    - cbn [block_loop]. destruct (Nat.leb_spec (i + 32) R); [lia|]. cbn [andb].
       exists i, m. repeat split; auto.
     - cbn [block_loop].
-      destruct (Nat.leb_spec (i + 32) R) as [H1|H1]; simpl.
+      destruct (Nat.leb_spec (i + 32) R) as [H1|H1]; cbn [andb].
       2:{ exists i, m. repeat split; auto. }
-      destruct (Nat.leb_spec (31 * R + i + 32) (length s)) as [H2|H2]; simpl.
+      destruct (Nat.leb_spec (31 * R + i + 32) (length s)) as [H2|H2].
       2:{ exists i, m. repeat split; auto. }
       destruct (do_block_spec i m ltac:(lia) H2 Hwf) as (m1 & Hrun & Hwf1 & Hlen1 & Hrows).
-      rewrite Hrun. simpl.
+      rewrite Hrun. cbn [rbind].
       apply IH; try lia; auto.
       intros r Hr. rewrite Hrows.
       destruct (Nat.leb_spec i r); destruct (Nat.ltb_spec r (i + 32)); simpl; try reflexivity; try lia.
@@ -201,11 +201,12 @@ Section Block.
       intros r c Hc. rewrite (Hc2 r c Hc), (Hc1 r c Hc).
       destruct (Nat.ltb_spec c 32); [|lia].
       destruct (Nat.eqb_spec r i) as [->|Hne].
-      + destruct (Nat.leb_spec (S i) i); [lia|]. simpl.
-        destruct (Nat.leb_spec i i); [|lia]. destruct (Nat.ltb_spec i (i + S n)); [|lia]. reflexivity.
-      + simpl.
-        destruct (Nat.leb_spec (S i) r); destruct (Nat.leb_spec i r);
-          destruct (Nat.ltb_spec r (S i + n)); destruct (Nat.ltb_spec r (i + S n)); simpl; auto; lia.
+      + destruct (Nat.ltb_spec (c * R + i) (length s)); destruct (Nat.leb_spec (S i) i); destruct (Nat.leb_spec i i);
+          destruct (Nat.ltb_spec i (S i + n)); destruct (Nat.ltb_spec i (i + S n));
+          cbn [andb]; try reflexivity; try lia.
+      + destruct (Nat.ltb_spec (c * R + r) (length s)); destruct (Nat.leb_spec (S i) r); destruct (Nat.leb_spec i r);
+          destruct (Nat.ltb_spec r (S i + n)); destruct (Nat.ltb_spec r (i + S n));
+          cbn [andb]; try reflexivity; try lia.
   Qed.
 
   Lemma tail_rows_is i m : tail_rows K s R i m = for_res (seq i (length m - i)) tail_outer m.
@@ -253,7 +254,7 @@ Proof.
     rewrite Hrun3. simpl.
     unfold s_new. rewrite Hlen3. destruct (Nat.ltb_spec (R * 32) L) as [Hbad|_]; [lia|].
     eexists. split; [reflexivity|]. split; [|reflexivity].
-    unfold Striped. simpl. rewrite <- EL, <- ER. repeat split; auto; try lia.
+    unfold Striped. cbn [mat slen swrap]. rewrite <- EL, <- ER. repeat split; auto; try lia.
     intros r c Hr Hc. rewrite Nat.add_0_r in Hr.
     rewrite (Hc3 r c Hr Hc).
     destruct (Nat.leb_spec L (c * R + r)) as [H1|H1]; simpl.
